@@ -72,7 +72,7 @@ set_stream(const char *s)
 }
 
 /* ---------------------------------------------------------------- helpers */
-#define MAXTOK 64
+#define MAXTOK 512
 static char *tok[MAXTOK];
 static int ntok;
 
@@ -270,6 +270,39 @@ do_op(void)
         int ok = ibz_4x4_right_ker_mod_power_of_2(&k, &m, e);
         if (ok) { printf("1"); for (int i = 0; i < 4; i++) { printf(" "); puti(&k[i]); } } else printf("0");
         ibz_mat_4x4_finalize(&m); ibz_vec_4_finalize(&k);
+    } else if ((!strcmp(op, "howell") || !strcmp(op, "kermod")) && ntok >= 4) {
+        int rows = (int)strtol(tok[1], NULL, 16), cols = (int)strtol(tok[2], NULL, 16);
+        if (cols < 1 || cols > rows || ntok != 4 + rows * cols) {
+            printf("bad-op");
+        } else {
+            geti(&a, tok[3]);
+            ibz_t mat[rows][cols];
+            ibz_mat_init(rows, cols, mat);
+            for (int i = 0; i < rows * cols; i++)
+                geti(&mat[i / cols][i % cols], tok[4 + i]);
+            if (!strcmp(op, "howell")) {
+                ibz_t how[rows][rows + 1], tr[rows + 1][rows + 1];
+                ibz_mat_init(rows, rows + 1, how);
+                ibz_mat_init(rows + 1, rows + 1, tr);
+                int z = ibz_mat_howell(rows, cols, how, tr, mat, &a);
+                printf("%x", (unsigned)z);
+                for (int i = 0; i < rows; i++)
+                    for (int j = 0; j < rows + 1; j++) { printf(" "); puti(&how[i][j]); }
+                printf(" |");
+                for (int i = 0; i < rows + 1; i++)
+                    for (int j = 0; j < rows + 1; j++) { printf(" "); puti(&tr[i][j]); }
+                ibz_mat_finalize(rows, rows + 1, how);
+                ibz_mat_finalize(rows + 1, rows + 1, tr);
+            } else {
+                ibz_t kr[cols][cols];
+                ibz_mat_init(cols, cols, kr);
+                ibz_mat_right_ker_mod(rows, cols, kr, mat, &a);
+                for (int i = 0; i < cols; i++)
+                    for (int j = 0; j < cols; j++) { if (i + j) printf(" "); puti(&kr[i][j]); }
+                ibz_mat_finalize(cols, cols, kr);
+            }
+            ibz_mat_finalize(rows, cols, mat);
+        }
     } else {
         printf("bad-op");
     }
